@@ -227,7 +227,8 @@ func (s *Sim) Count(k string, n int64) {
 // SlowSites are yield points a scenario can single out (config "slow_site",
 // 1-based): a goroutine passing the chosen one is descheduled for 0.2-3 ms
 // every time - a slow spot, where the ordinary yields model short ones.
-var SlowSites = []string{"client.ensureRegistered.beforeRegisterDispute"}
+var SlowSites = []string{"client.ensureRegistered.beforeRegisterDispute", "client.handleUpdateReq.beforeLock", "client.handleSyncMsg.beforeLock",
+	"client.handleChannelProposal.beforeValidate", "client.enableNotifyUpdate.beforePublish"}
 
 func (s *Sim) Yield(site string) {
 	if k := int(s.Sc.Cfg("slow_site", 0)); k > 0 && k <= len(SlowSites) && site == SlowSites[k-1] && heldNow() == 0 {
